@@ -28,7 +28,7 @@ import elementpath.aliases as ta
 
 from elementpath.protocols import ElementProtocol, EtreeElementProtocol
 from elementpath.exceptions import ElementPathTypeError
-from elementpath.datatypes import AbstractBinary, AbstractDateTime, AnyAtomicType, \
+from elementpath.datatypes import AbstractBinary, AbstractDateTime, AnyAtomicType, AnyURI, \
     Base64Binary, BooleanProxy, DateTime, DoubleProxy, DoubleProxy10, Duration, \
     Language, NumericProxy, Timezone, UntypedAtomic
 from elementpath.namespaces import XML_BASE, XPATH_FUNCTIONS_NAMESPACE
@@ -126,15 +126,17 @@ def evaluate__map_contains(self: XPathFunction, context: ta.ContextType = None) 
     if isinstance(key, float) and math.isnan(key):
         return any(isinstance(k, float) and math.isnan(k) for k in map_.keys(context))
 
+    string_types = (str, AnyURI, UntypedAtomic)
     for k in map_.keys(context):
+        if isinstance(k, string_types) or isinstance(key, string_types):
+            # strings, anyURIs and untyped atomic values match each other by codepoints
+            if isinstance(k, string_types) and isinstance(key, string_types) and str(k) == str(key):
+                return True
+            continue
+
         try:
             if k == key:
-                if isinstance(key, str) or isinstance(k, str):
-                    return True
-                elif isinstance(key, UntypedAtomic) ^ isinstance(k, UntypedAtomic):
-                    return False
-                else:
-                    return True
+                return True
         except TypeError:
             continue
     else:
